@@ -304,7 +304,27 @@ impl<'a> FnGen<'a> {
                 _ => reg(*rng.pick(&["AL", "CL", "DL"]), 1),
             }
         };
-        match self.rng.below(5) {
+        match self.rng.below(7) {
+            // dereference of a general purpose register (possibly NULL / small constant / heap pointer),
+            // directly or through `reg + offset`: the shapes the NULL-dereference detection looks at
+            5 => {
+                let p = self.r64();
+                if self.rng.chance(1, 2) {
+                    vec![store(p, r(size, self.rng))]
+                } else {
+                    vec![load(r(8, self.rng), p)]
+                }
+            }
+            6 => {
+                let p = self.r64();
+                let t = tmp("$U3200", 8);
+                let o = bin(t.clone(), "INT_ADD", p, cst(8 * self.rng.below(4), 8));
+                if self.rng.chance(1, 2) {
+                    vec![o, store(t, r(8, self.rng))]
+                } else {
+                    vec![o, load(r(8, self.rng), t)]
+                }
+            }
             0 | 1 => vec![addr_op, store(a, r(size, self.rng))],
             2 | 3 => {
                 let dst = r(size, self.rng);
